@@ -4,7 +4,10 @@ package drv
 
 import (
 	"fmt"
+	"github.com/tencent/goom/internal/bytecode/memory"
+	"os"
 	"strings"
+	"sync"
 
 	mocker "github.com/tencent/goom"
 	"github.com/tencent/goom/internal/patch"
@@ -12,10 +15,11 @@ import (
 )
 
 // lifeWorld binds the targets "f","g","h" of spec/Goom.tla to one handle kind:
-//   func     b.Func(fn.F)
-//   method   b.Struct(&fn.S{}).Method("F")
-//   uefunc   b.Pkg(fn.Pkg).ExportFunc("f") (+ .As(sig) for stubs)
-//   uemethod b.Struct(&fn.S{}).ExportMethod("f") (+ .As(sig) for stubs)
+//
+//	func     b.Func(fn.F)
+//	method   b.Struct(&fn.S{}).Method("F")
+//	uefunc   b.Pkg(fn.Pkg).ExportFunc("f") (+ .As(sig) for stubs)
+//	uemethod b.Struct(&fn.S{}).ExportMethod("f") (+ .As(sig) for stubs)
 type lifeWorld struct {
 	kind  string
 	heldE map[string]mocker.ExportedMocker   // last handle a lookup returned, per builder+target
@@ -38,9 +42,29 @@ func (w *lifeWorld) builder(b string) *mocker.Builder {
 	return w.b[b]
 }
 
+// lifeWrites: with VERIF_WRITES=1 every memory.WriteTo of the step is recorded (address, length) through the mem.locked hook and
+// must lie inside the 13 entry bytes of one of the world's targets or inside one of its placeholders (C14: a patch writes only
+// the fixed-length entry jump - also when it is REMOVED, whatever the logging configuration)
+var lifeWrites struct {
+	sync.Mutex
+	w [][2]uintptr
+}
+
 func (w *lifeWorld) Begin() {
 	theImage()
 	baseLogging()
+	if os.Getenv("VERIF_WRITES") == "1" {
+		memory.VerifHook = func(point string, a, b uintptr) {
+			if point == "mem.locked" {
+				lifeWrites.Lock()
+				lifeWrites.w = append(lifeWrites.w, [2]uintptr{a, b})
+				lifeWrites.Unlock()
+			}
+		}
+		lifeWrites.Lock()
+		lifeWrites.w = nil
+		lifeWrites.Unlock()
+	}
 	w.b = map[string]*mocker.Builder{}
 	w.used = map[string]bool{}
 	w.heldE = map[string]mocker.ExportedMocker{}
@@ -427,10 +451,35 @@ func (w *lifeWorld) Observe(st Step) map[string]string {
 		}
 	}
 	out["!image"] = im.outside(allowed)
+	if os.Getenv("VERIF_WRITES") == "1" {
+		out["!writes"] = "ok"
+		lifeWrites.Lock()
+		ws := lifeWrites.w
+		lifeWrites.w = nil
+		lifeWrites.Unlock()
+		for _, wr := range ws {
+			ok := false
+			for _, t := range []string{"f", "g", "h"} {
+				if r, has := im.funcs[w.sym(t)]; has && wr[0] >= r[0] && wr[0]+wr[1] <= r[0]+13 {
+					ok = true
+				}
+				if r, has := im.funcs[w.phSym(t)]; has && wr[0] >= r[0] && wr[0]+wr[1] <= r[1] {
+					ok = true
+				}
+			}
+			if !ok {
+				out["!writes"] = fmt.Sprintf("a write of %d bytes at %s: not inside the 13 entry bytes of a target nor inside a placeholder", wr[1], im.owner(wr[0]))
+				break
+			}
+		}
+	}
 	return out
 }
 
 func (w *lifeWorld) End() string {
+	if os.Getenv("VERIF_WRITES") == "1" {
+		memory.VerifHook = nil
+	}
 	for _, b := range w.b {
 		catch(func() { b.Reset() })
 	}
